@@ -1007,8 +1007,15 @@ pub fn parent_main(args: &Args, mode: Mode) -> ! {
             ev.extra.insert("deferred_to_C06".into(), json!(deferred));
         }
         Mode::C06 => {
+            if let Ok(path) = std::env::var("VERIF_C06T_SUMMARY") {
+                if let Ok(text) = std::fs::read_to_string(&path) {
+                    if let Ok(v) = serde_json::from_str::<Value>(&text) {
+                        ev.extra.insert("t_flavour_pass".into(), v);
+                    }
+                }
+            }
             ev.extra.insert("profiles".into(), json!(["release", "debug"]));
-            ev.assumptions.push("non-termination is nominated by a wall-clock watchdog (20 s of silence for cases that normally take ~1 ms)".into());
+            ev.assumptions.push("in the process-level campaign non-termination is nominated by a wall-clock watchdog (20 s of silence for cases that normally take ~1 ms); the T-flavour pass (coverage.t_flavour_pass) decides it without a clock for the background-decoder path: deadlock detection and a step bound under the simulator's scheduler".into());
         }
     }
     ev.assumptions.push("CRC-32C detects every burst <= 32 bits; for longer damage a 2^-32 collision per block is possible in principle (fixed seed makes any such hit reproducible)".into());
